@@ -21,7 +21,7 @@ fn main() {
     let n: usize = args[3].parse().unwrap();
     let table: Value =
         serde_json::from_str(&std::fs::read_to_string(&args[4]).expect("layout file")).unwrap();
-    let mut g = Gen { rng: Rng::new(seed), big: false, last_alg: None };
+    let mut g = Gen { rng: Rng::new(seed), big: false, last_alg: None, soft_opt: false };
     let mut tw = TraceWriter::create(path);
     let owner = [1u8, b'x', 2, b'Y', b'z', 0];
     for i in 0..n {
@@ -49,7 +49,7 @@ fn main() {
             _ => damaged = false,
         }
         let msg = rdata::one_record_msg(&owner, code, &rd);
-        let obs = observe(|| rdata::observe_rdata(&msg, may, !damaged));
+        let obs = observe(|| rdata::observe_rdata(&msg, may, !damaged && !g.soft_opt));
         let mut ev = json!({"ev": "rd", "rtype": code, "rd": rd});
         for (k, v) in obs.as_object().unwrap() {
             ev[k] = v.clone();
